@@ -33,9 +33,9 @@ class Ctx:
         if key not in self.engines:
             mir, dt = build.dump_mir(features, package, target)
             self.mir_s += dt
-            from mirse import models_ng, models_chan, models_misc, models_nom
+            from mirse import models_ng, models_chan, models_misc, models_nom, models_bio
             eng = runner.make_engine(mir, build.REPO, features=build.closure(features), src_globs=src_globs,
-                                     extra_models=(models_ng, models_chan, models_misc, models_nom))
+                                     extra_models=(models_ng, models_chan, models_misc, models_nom, models_bio))
             runner.register_engine(key, eng)
             self.engines[key] = eng
         return key
@@ -47,9 +47,9 @@ class Ctx:
             for package, target, feats in parts:
                 (mir, cl), dt = build.dump_mir(feats, package, target)
                 self.mir_s += dt; texts.append(mir); closures.update(cl)
-            from mirse import models_ng, models_chan, models_misc
+            from mirse import models_ng, models_chan, models_misc, models_bio
             eng = runner.make_engine(('\n'.join(texts), closures), build.REPO, features=build.closure(features), src_globs=src_globs,
-                                     extra_models=(models_ng, models_chan, models_misc))
+                                     extra_models=(models_ng, models_chan, models_misc, models_bio))
             runner.register_engine(key, eng)
             self.engines[key] = eng
         return key
